@@ -142,7 +142,7 @@ def proto_string_literal(data, rnd):
 STRING_DEFAULTS = [b'', b'hello', b'a"b', b'back\\slash', b'tab\there', b'new\nline', b"it's", b'what?',
                    b'really??', b'??=', b'a??!b', b'??', b'?\\?', b'100%', b'$var$', b'$', b'$$', b'a$$b$$$$', b'/* c */', b'//',
                    'héllo'.encode(), '€'.encode(), '\U0001f600'.encode(), b'\x7f', b'\x01\x02',
-                   b'\\n', b'"', b'\\', b'1\x012', b'x' * 70, b'trail ', b' lead', b'%s%n', b'a\rb']
+                   b'\\n', b'"', b'\\', b'1\x012', b'\x017', b'\x1f0\x0b12', b'x' * 70, b'trail ', b' lead', b'%s%n', b'a\rb']
 BYTES_EXTRA = [b'\x00', b'\x00\x00abc', b'abc\x00', b'\xff\xfe', b'\x80', bytes(range(0, 32)), b'\xffz', b'a\x00b',
                b'\xc3', b'\x00' * 5, bytes(range(120, 140))]
 FLOAT_DEFAULTS = ['0.1', '16777217', '-0.0', '1e-320', '1.5', '-1e10', '1e-45', '0', '3.4028235e38',
